@@ -418,6 +418,98 @@ pub fn run_check(replay: Option<Value>) -> i32 {
         Some(out)
     });
     rep.absorb(outs.into_iter().flatten().collect());
+
+    // index-1 DAEs whose algebraic row needs a row interchange in every factorisation (real and
+    // complex): 0 = eps*y0 + y1 - 1, y1' = -y1 + y0  =>  y1' = 1/eps - (1 + 1/eps) y1, closed form;
+    // optionally a second algebraic variable y2 = y0*y1.  Column 0 of E = fac*M - J is
+    // (-eps, -1, ..)^T whatever the step size, so the pivot is never the diagonal entry.
+    let epss = [0.1, 0.5, 0.01];
+    let pjobs: Vec<(usize, usize, usize, usize)> = (0..epss.len()).flat_map(|e| (0..2usize).flat_map(move |v| (0..2usize).flat_map(move |j| (0..2usize).map(move |t| (e, v, j, t))))).collect();
+    let pouts = par_map(pjobs.len(), |k| {
+        let (ei, variant, jsrc, ti) = pjobs[k];
+        let key = format!("daepivot:{}.{}.{}.{}", ei, variant, jsrc, ti);
+        if let Some(o) = &only {
+            if *o != key {
+                return None;
+            }
+        }
+        let eps = epss[ei];
+        let n = 2 + variant;
+        let rate = 1.0 + 1.0 / eps;
+        let yinf = (1.0 / eps) / rate;
+        let exact = move |t: f64| -> Vec<f64> {
+            let y1 = yinf + (0.0 - yinf) * (-rate * t).exp();
+            let y0 = (1.0 - y1) / eps;
+            if n == 2 {
+                vec![y0, y1]
+            } else {
+                vec![y0, y1, y0 * y1]
+            }
+        };
+        let p = Prob {
+            name: format!("index-1 DAE, algebraic row first, eps={}, n={}", eps, n),
+            n,
+            f: Arc::new(move |_t, y, d| {
+                d[0] = eps * y[0] + y[1] - 1.0;
+                d[1] = -y[1] + y[0];
+                if n == 3 {
+                    d[2] = y[2] - y[0] * y[1];
+                }
+            }),
+            jac: Some(Arc::new(move |_t, y| if n == 2 { vec![eps, 1.0, 1.0, -1.0] } else { vec![eps, 1.0, 0.0, 1.0, -1.0, 0.0, -y[1], -y[0], 1.0] })),
+            flow: None,
+            y0: exact(0.0),
+            linear_homogeneous: false,
+        };
+        let (rtol, atol) = if ti == 0 { (1e-5, 1e-8) } else { (1e-8, 1e-11) };
+        let mut c = Cfg::new(Method::RADAU, 0.0, 1.0, &p.y0).tol(rtol, atol);
+        c.user_jac = jsrc == 0;
+        c.mass_storage = MatrixStorage::Full;
+        let massf = move |m: &mut Matrix| {
+            for i in 0..n {
+                for j in 0..n {
+                    m[(i, j)] = if i == j && i == 1 { 1.0 } else { 0.0 };
+                }
+            }
+        };
+        let r = run_with(&p, &c, None, Some(&massf));
+        let mut out = CaseOut::default();
+        out.events = r.st.n_ode;
+        let desc = json!({"key": key, "problem": p.name, "rtol": rtol, "atol": atol, "jacobian": if jsrc == 0 { "user" } else { "finite-difference" }, "outcome": r.outcome_name(),
+            "nfev": r.sol().map(|s| s.nfev), "naccpt": r.sol().map(|s| s.naccpt)});
+        match r.sol() {
+            Some(s) if s.status == Status::Success => {
+                let ymax = s.y.iter().flat_map(|y| y.iter()).fold(0.0f64, |a, b| a.max(b.abs()));
+                let bound = 50.0 * (s.naccpt.max(1) as f64) * (atol + rtol * ymax) / eps;
+                let mut worst: f64 = 0.0;
+                for (t, y) in s.t.iter().zip(&s.y) {
+                    let ex = exact(*t);
+                    worst = y.iter().zip(&ex).fold(worst, |a, (u, v)| a.max((u - v).abs()));
+                }
+                if worst > bound {
+                    out.violations.push(Violation::new(&key, "dae-pivot-accuracy", format!("worst sample error {:e} against the closed form exceeds 50*naccpt*tol/eps = {:e}", worst, bound), desc.clone()).with("mass", "algebraic-first").with("n", n));
+                }
+                // work: the closed-form problem is mildly stiff and smooth; a wrong stage solve shows as
+                // many failed Newton iterations long before it shows in the error
+                let budget = if ti == 0 { 400 } else { 1200 };
+                if s.nfev > budget {
+                    out.violations.push(Violation::new(&key, "dae-pivot-work", format!("{} RHS evaluations (budget {} for this smooth problem)", s.nfev, budget), desc.clone()).with("mass", "algebraic-first").with("n", n));
+                }
+                out.validated += s.t.len() as u64;
+                out.tag("dae-pivot");
+            }
+            _ => out.violations.push(Violation::new(&key, "outcome", format!("index-1 DAE with the algebraic row first: run ended with {}", r.outcome_name()), desc.clone()).with("mass", "algebraic-first").with("n", n)),
+        }
+        let mut h = crate::util::Fp::default();
+        h.s(&key);
+        if let Some(s) = r.sol() {
+            h.fs(s.y.last().unwrap());
+        }
+        out.fp = Some(h.as_u128());
+        out.sample = Some(desc);
+        Some(out)
+    });
+    rep.absorb(pouts.into_iter().flatten().collect());
     if only.is_some() {
         for v in &rep.violations {
             println!("replay: VIOLATED [{}]: {}\n{}", v.sig["check"], v.msg, serde_json::to_string_pretty(&v.case).unwrap());
@@ -431,9 +523,9 @@ pub fn run_check(replay: Option<Value>) -> i32 {
     rep.dims = json!({"dimension": format!("1..={}", nmax), "mass_patterns": mass_patterns(4).iter().map(|p| p.name.clone()).collect::<Vec<_>>(),
         "jacobian_bands": "all (ml,mu) <= n-1 for n<=4; a fixed selection beyond", "mass_storages": "Full, Banded(exact fit), Banded(wider), Identity (identity pattern only)",
         "jacobian_storages": "Full, Banded(exact fit), Banded(wider)", "paths": ["solve_ivp Options", "RADAU::builder() defaults"], "methods": ["RADAU (mass)", "BDF (Jacobian storages)"]});
-    for t in ["storage-pair", "mass-vs-explicit", "dae-constraint", "default-mass"] {
+    for t in ["storage-pair", "mass-vs-explicit", "dae-constraint", "default-mass", "dae-pivot"] {
         rep.require(t, 10);
     }
-    rep.rule = "for every (dimension, mass pattern, Jacobian band pattern): all storage pairs holding the same entries must give bitwise identical trajectories (baseline Full/Full); M y'=f against y'=M^-1 f solved by Radau and DOP853 at 100x tighter tolerance; the algebraic residual of the index-1 DAE at every sample; finite-difference vs analytic Jacobian; with no mass override every mass storage (including asymmetric bands) and the low-level builder defaults must reproduce y'=f bitwise; distinct = distinct (configuration, final state)".into();
+    rep.rule = "for every (dimension, mass pattern, Jacobian band pattern): all storage pairs holding the same entries must give bitwise identical trajectories (baseline Full/Full); M y'=f against y'=M^-1 f solved by Radau and DOP853 at 100x tighter tolerance; the algebraic residual of the index-1 DAE at every sample; index-1 DAEs with the algebraic row first (a row interchange in every real and complex factorisation) against their closed form, with a work budget; finite-difference vs analytic Jacobian; with no mass override every mass storage (including asymmetric bands) and the low-level builder defaults must reproduce y'=f bitwise; distinct = distinct (configuration, final state)".into();
     rep.finish()
 }
